@@ -1,5 +1,87 @@
-(* C20 - placeholder until Render/ProgressSem.v is integrated *)
-From LF Require Import Render.Progress.
-Theorem C20_announced_leaf : forall N, announced N 0 = 1.
-Proof. reflexivity. Qed.
-Print Assumptions C20_announced_leaf.
+(* C20 — progress reports are monotone and complete.  Statements only; proofs in
+   Render/ProgressSem.v, model in Render/Progress.v (header there maps it to the code). *)
+From Coq Require Import List Arith QArith Permutation.
+From LF Require Import Render.Progress Render.ProgressSem.
+Import ListNotations.
+Local Open Scope nat_scope.
+
+(* the loop that announces the build phase computes the size of the full 2^N-ary tree *)
+Theorem C20_announced_total : forall N L, announced N L = total_ticks N L.
+Proof. exact announced_total. Qed.
+
+(* BUILD: whatever cells were pruned (terminal at any depth), collapsed or ambiguous, and in
+   whatever order the workers tick, the counter ends exactly at the announced total and never
+   overshoots it on the way *)
+Theorem C20_build_complete : forall N L c evs,
+  wf_cell N L c -> Permutation (build_events N L c) evs -> sum evs = total_ticks N L.
+Proof. exact build_schedule_total. Qed.
+
+Theorem C20_build_no_overshoot : forall N L c evs k,
+  wf_cell N L c -> Permutation (build_events N L c) evs -> sum (firstn k evs) <= total_ticks N L.
+Proof. exact build_schedule_no_overshoot. Qed.
+
+(* an ambiguous cell is completed by exactly one of its 2^N children's arrivals: the last *)
+Theorem C20_one_arrival_completes : forall k, 0 < k ->
+  length (filter (fun b => b) (arrivals k (k - 1))) = 1 /\ nth (k - 1) (arrivals k (k - 1)) false = true.
+Proof. intros k Hk; split; [apply arrivals_one_last | apply arrivals_last_true]; exact Hk. Qed.
+
+(* WALK: ticks = live (non-singleton) cells of the final tree = the announced total *)
+Theorem C20_walk_complete : forall N c, wf_fcell N c -> walk_ticks N c = live c.
+Proof. exact walk_ticks_live. Qed.
+
+(* RESET: every block of every nested pool is freed and ticked exactly once, for every
+   requested worker count (the repaired ObjectPool::reset) *)
+Theorem C20_reset_complete : forall w pools, 0 < w -> reset_ticks w pools = num_blocks pools.
+Proof. exact reset_ticks_blocks. Qed.
+
+Theorem C20_block_striding : forall w n, 0 < w ->
+  Permutation (flat_map (fun i => worker_blocks i w n) (seq 0 w)) (seq 0 n).
+Proof. exact worker_blocks_perm. Qed.
+
+(* the code before the repair: an empty pool above a non-empty one loses the nested ticks *)
+Theorem C20_reset_old_refuted : reset_ticks_old 8 [(0, 0); (0, 1)] = 0 /\ num_blocks [(0, 0); (0, 1)] = 1.
+Proof. exact reset_ticks_old_refuted. Qed.
+
+(* REPORTED VALUE: in [0,1] while counters do not exceed totals, non-decreasing as counters
+   and phases advance, exactly 1 when every phase is complete *)
+Theorem C20_reported_range : forall ps cur,
+  (forall p, In p ps -> ph_counter p <= ph_total p) -> (0 <= reported ps cur <= 1)%Q.
+Proof. exact reported_range. Qed.
+
+Theorem C20_reported_monotone : forall ps ps' cur,
+  Forall2 advances ps ps' -> (reported ps cur <= reported ps' cur)%Q /\ (reported ps cur <= reported ps (S cur))%Q.
+Proof. intros ps ps' cur H; split; [apply reported_mono_counter; exact H | apply reported_mono_phase]. Qed.
+
+Theorem C20_reported_complete : forall ps,
+  (forall p, In p ps -> ph_counter p = ph_total p /\ ph_total p <> 0) -> total_weight ps <> 0 ->
+  (reported ps (length ps - 1) == 1)%Q.
+Proof. exact reported_complete. Qed.
+
+(* FINISH: idempotent, never unlocks an unlocked mutex, harmless on a handler that never
+   started, and stops the reporting thread; the old code is refuted *)
+Theorem C20_finish_protocol :
+  (forall s, h_finish true (h_finish true s) = h_finish true s) /\
+  (forall s, h_ub s = false -> h_mutex_locked s = true -> h_ub (h_finish true (h_finish true s)) = false) /\
+  (forall b, h_finish b h_init = h_init) /\
+  (forall b, h_thread_running (h_finish b (h_launch h_init)) = false).
+Proof.
+  split; [exact finish_idempotent|]. split; [exact finish_twice_safe'|].
+  split; [exact finish_never_started | exact finish_stops_thread].
+Qed.
+
+Theorem C20_finish_old_refuted : h_ub (h_finish false (h_finish false (h_launch h_init))) = true.
+Proof. exact finish_twice_old_refuted. Qed.
+
+Print Assumptions C20_announced_total.
+Print Assumptions C20_build_complete.
+Print Assumptions C20_build_no_overshoot.
+Print Assumptions C20_one_arrival_completes.
+Print Assumptions C20_walk_complete.
+Print Assumptions C20_reset_complete.
+Print Assumptions C20_block_striding.
+Print Assumptions C20_reset_old_refuted.
+Print Assumptions C20_reported_range.
+Print Assumptions C20_reported_monotone.
+Print Assumptions C20_reported_complete.
+Print Assumptions C20_finish_protocol.
+Print Assumptions C20_finish_old_refuted.
